@@ -688,3 +688,71 @@ func TestWitnessShareReconnect(t *testing.T) {
 		}
 	}
 }
+
+// TestWitnessTimeDriven: lower bounds only (a timer never fires early, so these hold under any load): value k of
+// Interval(p) not before (k+1) periods, value k of IntervalWithInitial(i, p) not before i + k periods, Timer(d) not
+// before d, Delay(d) not before d after the emission and in emission order; values are 0, 1, 2, ... and nothing
+// arrives after Unsubscribe has returned and one more period has passed. Bounded; it only backs UNDECIDED units.
+func TestWitnessTimeDriven(t *testing.T) {
+	const p = 15 * time.Millisecond
+	const slack = 500 * time.Microsecond
+	type stamp struct {
+		v  int64
+		at time.Duration
+	}
+	run := func(name string, o Observable[int64], n int, bound func(k int) time.Duration) {
+		var mu sync.Mutex
+		var got []stamp
+		start := time.Now()
+		done := make(chan struct{})
+		var once sync.Once
+		sub := o.Subscribe(NewObserver(func(v int64) {
+			at := time.Since(start)
+			if v == 0 {
+				time.Sleep(time.Millisecond) // a consumer that takes its time over the first value (bounds are lower bounds)
+			}
+			mu.Lock()
+			got = append(got, stamp{v, at})
+			if len(got) == n {
+				once.Do(func() { close(done) })
+			}
+			mu.Unlock()
+		}, func(error) {}, func() {}))
+		select {
+		case <-done:
+		case <-time.After(time.Duration(n+6)*p + 2*time.Second):
+		}
+		sub.Unsubscribe()
+		mu.Lock()
+		atUnsub := len(got)
+		mu.Unlock()
+		time.Sleep(3 * p)
+		mu.Lock()
+		snap := append([]stamp{}, got...)
+		mu.Unlock()
+		if len(snap) > atUnsub+1 {
+			fmt.Printf("REPLAY-FAIL %s: %d value(s) arrived after Unsubscribe returned\n", name, len(snap)-atUnsub)
+			t.Errorf("WITNESS %s: values after unsubscription", name)
+		}
+		for k, s := range snap {
+			if k >= n {
+				break
+			}
+			if s.v != int64(k) || s.at+slack < bound(k) {
+				fmt.Printf("REPLAY-FAIL %s: value #%d is %d and arrived %v after subscription; it is value %d and is due no sooner than %v\n", name, k, s.v, s.at, k, bound(k))
+				t.Errorf("WITNESS %s: value #%d = %d at %v (bound %v)", name, k, s.v, s.at, bound(k))
+				return
+			}
+		}
+		if len(snap) < n {
+			fmt.Printf("REPLAY-FAIL %s: only %d of %d values arrived\n", name, len(snap), n)
+			t.Errorf("WITNESS %s: %d of %d values", name, len(snap), n)
+		}
+	}
+	run("Interval(15ms)", Interval(p), 4, func(k int) time.Duration { return time.Duration(k+1) * p })
+	run("IntervalWithInitial(0, 15ms)", IntervalWithInitial(0, p), 4, func(k int) time.Duration { return time.Duration(k) * p })
+	run("IntervalWithInitial(10ms, 15ms)", IntervalWithInitial(10*time.Millisecond, p), 4, func(k int) time.Duration { return 10*time.Millisecond + time.Duration(k)*p })
+	for round := 0; round < 5; round++ {
+		run("Delay(20ms) over Range(0, 400)", Delay[int64](20*time.Millisecond)(Range(0, 400)), 400, func(k int) time.Duration { return 20 * time.Millisecond })
+	}
+}
